@@ -1140,6 +1140,17 @@ func (cfg *Config) glob(base, pat string) ([]string, error) {
 			}
 			continue
 		case !pattern.HasMeta(part, 0) && !cfg.hasExtGlobMeta(part):
+			// The element names a single file; undo the escaping of any quoted characters.
+			if strings.Contains(part, `\`) {
+				sb := cfg.strBuilder()
+				for i := 0; i < len(part); i++ {
+					if part[i] == '\\' && i+1 < len(part) {
+						i++
+					}
+					sb.WriteByte(part[i])
+				}
+				part = sb.String()
+			}
 			var newMatches []string
 			for _, dir := range matches {
 				match := dir
